@@ -19,6 +19,7 @@ ASSUME13 = [
     "TLC checks both that the wire lines the harness fed are Tor's rendering of the abstract key/value set (WireOK) and that the "
     "API result equals that set (ResOK); input breadth is enumerated / drawn by the Python driver",
     "a multi-line value may come back with or without the single separator that follows 'key=' on the wire",
+    "every other single-key request is made through get_info_single / get_conf_single (the bare value is compared as the value of its key)",
     "data lines that begin with the requested key itself followed by '=' are not generated (indistinguishable in-band)",
     "half of the vectors have an unsolicited 650 event (single-line, multi-line or data-block) delivered just before the command is "
     "issued or just before its reply; the expected result does not depend on it",
@@ -28,7 +29,9 @@ ASSUME13 = [
 ]
 CRIT12 = ["a", " ", "\t", '"', "\\", "=", "\r", "\n"]
 CRIT13 = ["a", "=", " ", '"', "'", "2", "5", "0", ".", "O", "K"]
-BLOCK_LINES = ["a", ".a", "..", ".", "k=v", "250 OK", "OK", "", " a", "x=y=z", "650 EV x", "250-mid", " OK ", "'q'", '"q"']
+BLOCK_LINES = ["a", ".a", "..", ".", "k=v", "250 OK", "OK", "", " a", "x=y=z", "650 EV x", "250-mid", " OK ", "'q'", '"q"', "=", "=1", "1=v"]
+# words that mean something to the protocol or to this library: as values they are plain text like any other
+WORDS = ["DEFAULT", "default", "OK", "250 OK", "NULL", "None", "auto", "0", "1", "", "=", "SETCONF", "DEFAULT DEFAULT", "\"DEFAULT\""]
 
 
 def vectors12(tier, seed):
@@ -51,6 +54,8 @@ def vectors12(tier, seed):
     for _ in range(60 if tier == "quick" else 600):
         args = ["Log", "".join(rng.choice(printable + ["\r", "\n", "\r\n"]) for _ in range(rng.randint(1, 20)))]
         out.append((args, True))
+    for w in WORDS:
+        out += [(["Log", w], True), (["K", w, "SocksPort", "9050"], True), (["K", "x", "SocksPort", w], True)]
     out += [(["ORPort", 9001], True), (["SafeLogging", True], True), (["X", False, "Y", 0, "Z", -1], True),
             (["F", 1.5], True), (["Log", "x\r\nSIGNAL HALT"], True), (["Log", "a\nb"], True),
             (["HiddenServiceDir", "/hs1", "HiddenServicePort", "80 127.0.0.1:8080", "HiddenServiceDir", "/hs2",
@@ -90,6 +95,16 @@ def vectors13(tier, seed):
             combos = rng.sample(combos, 250 if tier == "quick" else 4000)
         for ls in combos:
             out.append(("info", [("k1", True, list(ls))], segs[len(out) % 3]))
+    # realistic key names: data lines that look like "<part of the key>=..." are part of the value
+    for key, ls in (("desc/name/foo", ["router foo 1.2.3.4 9001 0 0", "name=foo", "desc=x"]), ("md/id/ABCD", ["onion-key", "id=ed25519 xyz"]),
+                    ("dir/status-vote/current/consensus", ["network-status-version 3", "status=ok", "s=Fast"]),
+                    ("config-text", ["=", "SocksPort 9050", "config=1", "text=a b"]), ("k1", ["k=v", "1=v", "=k1"])):
+        out.append(("info", [(key, True, ls)], segs[len(out) % 3]))
+        out.append(("info", [(key, True, ls[::-1])], segs[len(out) % 3]))
+    for w in WORDS:
+        out.append(("info", [("k1", False, [w])], segs[len(out) % 3]))
+        if "\"" not in w:
+            out.append(("conf", "Opt", False, [w], segs[len(out) % 3]))
     printable = [chr(c) for c in range(32, 127)]
     for _ in range(150 if tier == "quick" else 3000):
         v = "".join(rng.choice(printable) for _ in range(rng.randint(1, 60)))
@@ -119,12 +134,14 @@ def run(pid, tier, seed):
         rep.tlc("KvLine_MC (grammar round trip)", tlc.run_tlc("KvLine_MC", "KvLine_MC_quick.cfg", workers=16, timeout=900))
         recs = []
         noises = ["none"] * 6 + ["%s@%s" % (sh, at) for sh in ("midline", "block", "single") for at in ("before", "during")] + ["cancel@before"] * 2 + ["twin@before"] * 2 + ["split@before"] * 2
-        for v in vectors13(tier, seed):
+        for i, v in enumerate(vectors13(tier, seed)):
             noise = rng.choice(noises)
+            # every other single-key request goes through the single-value form of the API
+            api = "single" if i % 2 else "dict"
             if v[0] == "info":
-                recs.append(kv.getinfo_vector(v[1], v[2], rng, noise))
+                recs.append(kv.getinfo_vector(v[1], v[2], rng, noise, api))
             else:
-                recs.append(kv.getconf_vector(v[1], v[2], v[3], v[4], rng, noise))
+                recs.append(kv.getconf_vector(v[1], v[2], v[3], v[4], rng, noise, api))
         key = lambda r: json.dumps([r["cmd"], r["kvs"], r["key"], r["unset"], r["vals"]])
     rep.cov["evaluations"] = len(recs)
     rep.cov["distinct_nontrivial"] = len(set(key(r) for r in recs))
@@ -133,7 +150,7 @@ def run(pid, tier, seed):
                        "(exhaustive short strings over {a,=,SP,\",',2,5,0,.,O,K} and random printable text), two keys, data blocks of 1-3 "
                        "lines incl. dot-stuffed / status look-alike / k=v lines, GETCONF unset / empty / 1..3 values; under whole, "
                        "byte-at-a-time and random segmentation; distinct by input")
-    traces = [dict((k, v) for k, v in r.items() if k not in ("args", "seg", "noise", "ctx")) for r in recs]
+    traces = [dict((k, v) for k, v in r.items() if k not in ("args", "seg", "noise", "ctx", "api")) for r in recs]
     for t in traces:
         t["steps"] = [1]
     res, runs = tlc.validate_parallel("KvLineTrace", "KvLineTrace.cfg", traces, nproc=14, chunk=1500, timeout=3000)
@@ -187,11 +204,11 @@ def replay(pid, path):
         rec = kv.setconf_vector([ast.literal_eval(a) for a in v["args"]], v["keysok"], v.get("ctx", "idle"))
     elif v["cmd"] == "GETINFO":
         rec = kv.getinfo_vector([(txt(k["key"]), k["block"], [txt(l) for l in k["lines"]]) for k in v["kvs"]], v.get("seg", "whole"), random.Random(0),
-                                v.get("noise", "none"))
+                                v.get("noise", "none"), v.get("api", "dict"))
     else:
         rec = kv.getconf_vector(txt(v["key"]), v["unset"], [txt(x) for x in v["vals"]], v.get("seg", "whole"), random.Random(0),
-                                v.get("noise", "none"))
-    t = dict((k, x) for k, x in rec.items() if k not in ("args", "seg", "noise", "ctx"))
+                                v.get("noise", "none"), v.get("api", "dict"))
+    t = dict((k, x) for k, x in rec.items() if k not in ("args", "seg", "noise", "ctx", "api"))
     t["steps"] = [1]
     res, r = tlc.validate_traces("KvLineTrace", "KvLineTrace.cfg", [t])
     x = res[0]
